@@ -114,6 +114,16 @@ def make(row, case):
         inv = {old_: new_ for new_, old_ in enumerate(order)}
         asym = dict(asym, symbols=[asym["symbols"][i] for i in order], frac=asym["frac"][order], molidx=[mi[i] for i in order],
                     bonds=[(inv[a], inv[b]) for a, b in asym["bonds"]])
+    if case.get("labels") == "repeated":
+        # every molecule of the asymmetric unit uses the SAME atom names (O1, H1, H2 in each water - as files converted from PDB do)
+        mi = asym["molidx"]
+        seen = {}
+        labs = []
+        for i, sy in enumerate(asym["symbols"]):
+            k = (mi[i], sy)
+            seen[k] = seen.get(k, 0) + 1
+            labs.append("%s%d" % (sy, seen[k]))
+        asym = dict(asym, labels=labs)
     imgs = mol.images(ops, asym)
     return ops, cell, asym, imgs
 
@@ -132,7 +142,7 @@ def check_case(part, row, case):
     zk = case["zkind"]
     key_suffix = "%s" % zk
     try:
-        c = xtal.make_crystal(row["number"], row["choice"], cell, asym["symbols"], asym["frac"])
+        c = xtal.make_crystal(row["number"], row["choice"], cell, asym["symbols"], asym["frac"], **({"labels": asym["labels"]} if asym.get("labels") else {}))
         uc = c.unit_cell_atoms()
         mols = c.unit_cell_molecules()
     except Exception as e:
@@ -279,6 +289,10 @@ def plan(row, tier, seed, full):
         for ce in centres[:2] if not full else centres[::31]:
             for listing in ("interleaved", "heavy-first", "reversed"):
                 cases.append({"number": row["number"], "choice": row["choice"], "zkind": zk, "centre": list(ce), "orient": orients[0], "seed": seed, "listing": listing})
+    # special values: Z' = 2 with the SAME atom names in both molecules
+    for zk in ("2eq", "2diff"):
+        for ce in centres[:2]:
+            cases.append({"number": row["number"], "choice": row["choice"], "zkind": zk, "centre": list(ce), "orient": orients[0], "seed": seed, "labels": "repeated"})
     # cell axis: the long/oblique and (triclinic, monoclinic) the strongly oblique compatible cell; molecules placed on a finer
     # grid of centres right at the cell faces, in all three orientations (bonds crossing a face at many angles)
     face = (0.004, 0.031, 0.969, 0.996, 0.47)
